@@ -976,8 +976,10 @@ def _generate_custom_validator_expression_for(field_ir, ir):
             """A "FieldReader" that translates the current field to `value`."""
 
             def render_existence(self, expression, subexpressions):
-                del expression  # Unused.
-                assert False, "Shouldn't be here."
+                # The only field a [requires] can name is `this`, and a value is
+                # only ever validated for a field that exists.
+                del expression, subexpressions  # Unused.
+                return "::emboss::support::Maybe</**/bool>(true)"
 
             def render_field(self, expression, ir, subexpressions):
                 assert len(expression.field_reference.path) == 1
